@@ -40,6 +40,13 @@ class MaybeConstantView {
   constexpr ValueT Read() const { return value_.Value(); }
   constexpr ValueT UncheckedRead() const { return value_.ValueOrDefault(); }
   constexpr bool Ok() const { return value_.Known(); }
+  constexpr bool Equals(const MaybeConstantView &other) const {
+    return value_.Known() && other.value_.Known() &&
+           value_.ValueOrDefault() == other.value_.ValueOrDefault();
+  }
+  constexpr bool UncheckedEquals(const MaybeConstantView &other) const {
+    return value_.ValueOrDefault() == other.value_.ValueOrDefault();
+  }
 
  private:
   ::emboss::support::Maybe<ValueT> value_;
